@@ -33,7 +33,8 @@ def check_role(spec, r):
     f = []
     lab = '%s %r' % (spec.get('name'), r)
     c = m.canonicalize_role(r)
-    if m.canonicalize_role(c) != c:
+    chain = c in R.norm or (R.canonical(r) is not None and R.canonical(r) in R.norm)
+    if not chain and m.canonicalize_role(c) != c:
         f.append(('canonicalize-idempotent', '%s -> %r -> %r' % (lab, c, m.canonicalize_role(c))))
     if r != '/' and not c.startswith(':'):
         f.append(('canonical-leading-colon', '%s -> %r' % (lab, c)))
@@ -106,13 +107,18 @@ def check_tree(spec, j):
     if dict(t2.metadata) != {'k': 'v'}:
         f.append(('tree-metadata', repr(t2.metadata)))
     t3 = transform.canonicalize_roles(t2, m)
-    if t3.node != t2.node:
+    has_chain = any(v in R.norm for v in R.norm.values())
+    if t3.node != t2.node and not has_chain:
         f.append(('canonicalize-roles-idempotent', '%s -> %s -> %s' % (fmt(before), fmt(t2.node), fmt(t3.node))))
     return f
 
 
 def check(case):
     if case['k'] == 'role':
+        if case.get('first'):
+            # another role of the same chain is canonicalised first, on the same model object: answers must not depend on the order
+            build_model(case['model']).canonicalize_role(case['first'])
+            build_model(case['model']).is_role_inverted(case['first'])
         return check_role(case['model'], case['r'])
     return check_tree(case['model'], case['tree'])
 
@@ -193,7 +199,7 @@ def _enum_cases(ch):
 
 @st.composite
 def _random(draw):
-    spec = draw(models.model_specs())
+    spec = draw(models.model_specs(chains=True))
     if draw(st.integers(0, 2)) == 0:
         j = draw(trees.any_trees(max_nodes=6))
         return {'k': 'tree', 'model': spec, 'tree': j}
@@ -205,7 +211,16 @@ def _random(draw):
         b = draw(st.sampled_from(pool))
         if draw(st.integers(0, 4)) == 0 and b.startswith(':'):
             b = b[1:]
-    return {'k': 'role', 'model': spec, 'r': b + '-of' * draw(st.sampled_from([0, 1, 2, 3, 4, 4, 5, 10, 13]))}
+    chained = [(k_, v_) for k_, v_ in t['normalizations'].items() if v_ in t['normalizations']]
+    if chained and draw(st.booleans()):
+        # a normalisation chain k -> v -> w: ask for k first, then for v (one lookup each; order must not matter)
+        k_, v_ = chained[draw(st.integers(0, len(chained) - 1))]
+        return {'k': 'role', 'model': spec, 'r': v_, 'first': k_}
+    case = {'k': 'role', 'model': spec, 'r': b + '-of' * draw(st.sampled_from([0, 1, 2, 3, 4, 4, 5, 10, 13]))}
+    if draw(st.booleans()):
+        keys = sorted(t['normalizations']) + sorted(t['normalizations'].values()) + pool
+        case['first'] = keys[draw(st.integers(0, len(keys) - 1))] + '-of' * draw(st.integers(0, 2))
+    return case
 
 
 def stages(tier):
